@@ -6,20 +6,27 @@ cd "$(dirname "$0")" || exit 2
 export GOFLAGS=-mod=mod GOPROXY=off GOSUMDB=off GOTOOLCHAIN=local CGO_ENABLED=1
 mkdir -p bin run evidence
 LOCK=run/.build.lock
+# VERIF_REPO: build against another checkout of onheap/eval (default /repo, as go.mod says); used for background sweeps
+MODFLAG=""
+if [ -n "$VERIF_REPO" ] && [ "$VERIF_REPO" != "/repo" ]; then
+  sed "s#=> /repo#=> $VERIF_REPO#" harness/go.mod > run/alt.go.mod
+  : > run/alt.go.sum
+  MODFLAG="-modfile=$(pwd)/run/alt.go.mod"
+fi
 build() {
   # serialise builds (several checks may be started at once); go's build cache keys on /repo's content
   (
     flock 9
     cd harness || exit 2
-    if ! go build -tags verif -o ../bin/vcheck . 2>../run/build.err; then
+    if ! go build $MODFLAG -tags verif -o ../bin/vcheck . 2>../run/build.err; then
       echo "NOTE: harness does not build with -tags verif; falling back to an untagged (degraded, hook-less) build" >&2
       cat ../run/build.err >&2
-      go build -o ../bin/vcheck . || exit 2
+      go build $MODFLAG -o ../bin/vcheck . || exit 2
     fi
     if [ "$1" = race ]; then
-      if ! go build -race -tags verif -o ../bin/vcheck-race . 2>../run/build-race.err; then
+      if ! go build $MODFLAG -race -tags verif -o ../bin/vcheck-race . 2>../run/build-race.err; then
         cat ../run/build-race.err >&2
-        go build -race -o ../bin/vcheck-race . || exit 2
+        go build $MODFLAG -race -o ../bin/vcheck-race . || exit 2
       fi
     fi
   ) 9>"$LOCK"
